@@ -64,3 +64,31 @@ def concatenate_order(ctx: Ctx) -> list[Ob]:
     if sites == 0:
         raise AnalysisError("vanished anchor: the loop of concatenate that collects the operands' outputs")
     return out
+
+
+def must_call_on_all_paths(ctx: Ctx, fq: str, callee: str, rule: str, inst: str, why: str) -> Ob:
+    """every normal exit of *fq* passes through a call of ``self.<callee>(..)``"""
+    from ..cfg import ENTRY, EXIT, build_cfg, stmt_calls
+
+    f = ctx.repo.func(fq)
+    g = build_cfg(f.node)
+
+    def calls(n: int) -> bool:
+        if n not in g.stmts:
+            return False
+        return any(isinstance(c.func, ast.Attribute) and c.func.attr == callee for c in stmt_calls(g.stmts[n]))
+
+    if not any(calls(n) for n in g.stmts):
+        return viol(rule, fq, inst, f"{callee}() is never called: {why}", f.loc)
+    seen = {ENTRY}
+    stack = [ENTRY]
+    while stack:
+        a = stack.pop()
+        for b, _ in g.succ.get(a, []):
+            if b in seen or calls(b):
+                continue
+            seen.add(b)
+            stack.append(b)
+    if EXIT in seen:
+        return viol(rule, fq, inst, f"a normal exit is reachable without calling {callee}(): {why}", f.loc)
+    return ok(rule, fq, inst, f"every normal exit passes through {callee}()", f.loc)
